@@ -1,4 +1,5 @@
 import CC.Lemmas.Prims
+import CC.Lemmas.Issued
 /-! # C09 — every API call succeeds or fails exactly as its contract says
 
 Each theorem characterises, for *all* states and arguments, when the model of an operation
@@ -135,5 +136,22 @@ theorem latestRightSks_err_iff (msk : Msk) (rights : List Right) :
       simp only [List.mem_cons, exists_eq_or_imp, hl, reduceCtorEq, false_or]
       rw [← ih]
       cases latestRightSks msk xs <;> simp
+
+/-- **Refreshing an issued user key succeeds with either flag whatever was rekeyed, pruned or
+deleted in between**: a key generated in some reachable world is refreshable in every world
+reachable from there by any further operations (edits, updates, rekeys, prunes, other key
+generations and refreshes — of arbitrary keys —, randomness-consuming calls). -/
+theorem issued_key_always_refreshable (w : World) (hw : Reachable w) (p : AP) (rights : List Right)
+    (hr : w.msk.structure_.uskRights p = .ok rights) (usk : Usk)
+    (hk : (uskKeygen w.msk rights w.rng).1 = .ok usk) (ops : List Op) (keep : Bool) :
+    (refresh (ops.foldl World.step (w.step (.keygen p))).msk usk keep (ops.foldl World.step (w.step (.keygen p))).rng).1 = .ok () := by
+  have hstep : w.step (.keygen p) = ⟨(uskKeygen w.msk rights w.rng).2.1, (uskKeygen w.msk rights w.rng).2.2⟩ := by
+    simp only [World.step, hr]
+  have hi : Issued (w.step (.keygen p)).msk usk := by
+    rw [hstep]; exact keygen_issues w.msk rights w.rng usk hk
+  have hreach : Reachable (ops.foldl World.step (w.step (.keygen p))) := by
+    obtain ⟨n, ops0, rfl⟩ := hw
+    exact ⟨n, ops0 ++ [.keygen p] ++ ops, by simp [List.foldl_append]⟩
+  exact issued_refresh_ok _ hreach usk (issued_stable _ ops usk hi) keep
 
 end CC.Props.C09
